@@ -568,6 +568,16 @@ func closedOnEveryWayOut(ins ssa.Instruction, conn ssa.Value) bool {
 		return recv != nil && connObjectOf(recv) == want
 	}
 	b0 := ins.Block()
+	// a deferred Close registered on the way to the site runs at every return
+	deferred := false
+	allInstrs(ins.Parent(), func(x ssa.Instruction) {
+		if d, ok := x.(*ssa.Defer); ok && isClose(d) && (d.Block() == b0 || d.Block().Dominates(b0)) {
+			deferred = true
+		}
+	})
+	if deferred {
+		return true
+	}
 	start := instrIndex(ins) + 1
 	seen := map[*ssa.BasicBlock]bool{}
 	var walk func(b *ssa.BasicBlock, from int) bool
